@@ -93,7 +93,8 @@ CHECKS = {
         "level": "exploration",
         "technique": "stateful property-based testing (rapid state machine) with a pre/post oracle on every withdrawal and send, boundary-biased block times, query/transaction agreement",
         "tests": [T("TestC06", 500, 2500, qshards=2, steps=50)],
-        "rule": "cases = as C05; block time is moved to lock-end-1ns / lock end / lock-end+1ns of existing pools two times out of three. Oracle on every withdraw-all: owner balance delta == sum of (locked remainder) over pools with now >= lock end == response, every other pool untouched, an immediate second withdrawal pays 0, the VestingPools query's withdrawable / currently_locked / sent_amount per pool equal what the same-block withdrawal paid and the ledger; on every send: locked pools lose coins only through their sent counter and only into a previously absent address that is now a continuous vesting account holding exactly that amount. "
+        "plain_tests": ["TestRegressSpelling"],
+        "rule": "cases = as C05 (owner, recipient and query addresses are spelled in lower or, one time in five, in upper case bech32; governance proposals to change the vesting denomination are part of the histories once pools exist); block time is moved to lock-end-1ns / lock end / lock-end+1ns of existing pools two times out of three. Oracle on every withdraw-all: owner balance delta == sum of (locked remainder) over pools with now >= lock end == response, every other pool untouched, an immediate second withdrawal pays 0, the VestingPools query's withdrawable / currently_locked / sent_amount per pool equal what the same-block withdrawal paid and the ledger; on every send: locked pools lose coins only through their sent counter and only into a previously absent address that is now a continuous vesting account holding exactly that amount. "
                 "Non-trivial = a withdrawal was evaluated for an owner having both a matured and a still locked pool. Distinct = SHA-256 of the history.",
         "min_nontrivial_fraction": 0.15,
         "min_class_fraction": {"t_equals_lock_end": 0.10, "matured_and_locked_pools": 0.15},
@@ -186,7 +187,8 @@ CHECKS = {
         "level": "exploration",
         "technique": "stateful property-based testing (rapid state machine) against a lineage reference model (transitive closure) and summaries recomputed from bank and account state",
         "tests": [T("TestC17", 300, 1500, qshards=2, steps=60)],
-        "rule": "cases = world seeded through keeper setters with 2-6 pools (genesis flag drawn per pool) for two owners and 0-3 vesting accounts (genesis-traced, non-genesis traced, untraced), then a rapid state machine (avg 60 steps) over pool sends, direct creations, split / move / move-by-denoms (from recent accounts and from the deepest account of the genesis and of the non-genesis line), real MsgDelegate / MsgUndelegate and time advances. After every step: {traced addresses} and {addresses recorded as genesis-derived} equal the model's sets (genesis-derived = from a genesis pool, or seeded genesis account, or split/moved from a genesis-derived traced account), and both summary queries equal (pools, sum of still-vesting coins of the recorded accounts, vesting - locked) recomputed from bank LockedCoins and the accounts' vesting schedules. "
+        "plain_tests": ["TestRegressSpelling"],
+        "rule": "cases = world seeded through keeper setters with 2-6 pools (genesis flag drawn per pool) for two owners and 0-3 vesting accounts (genesis-traced, non-genesis traced, untraced), then a rapid state machine (avg 60 steps) over pool sends, direct creations, split / move / move-by-denoms (from recent accounts and from the deepest account of the genesis and of the non-genesis line), real MsgDelegate / MsgUndelegate and time advances; recipient addresses are spelled in upper case bech32 one time in four (trace records are compared by decoded address). After every step: {traced addresses} and {addresses recorded as genesis-derived} equal the model's sets (genesis-derived = from a genesis pool, or seeded genesis account, or split/moved from a genesis-derived traced account), and both summary queries equal (pools, sum of still-vesting coins of the recorded accounts, vesting - locked) recomputed from bank LockedCoins and the accounts' vesting schedules. "
                 "Non-trivial = a chain of depth >= 2 from a genesis root and one from a non-genesis root. Distinct = SHA-256 of the history.",
         "min_nontrivial_fraction": 0.15,
         "min_class_fraction": {"chain_depth_ge4": 0.15},
